@@ -1,10 +1,12 @@
 """C04 - interrupts reach a live process once, in issue order, ahead of ordinary events."""
 from harness import kprops, koracle, kbridge
-from harness.kbridge import EXTRA_MODULES, TRUSTED_EXTRA, prepare
+from harness.kbridge import TRUSTED_EXTRA
+EXTRA_MODULES = kbridge.MODULES['C04']      # this property's bridge modules only (py2lean/SCOPE.md)
+prepare = kbridge.prepare_for('C04')    # regenerates only the generated files this property owns
 ASSUMPTIONS = ['victims ignore, re-wait, wait for something else, terminate or raise in their handler (script handlers 0,1,10+k,2,3)']
 SPEC = [(6, 'victim'), (2, 'intr'), (1, 'time'), (1, 'plan:victim')]
 def run(ctx):
-    res = kprops.run_kernel(ctx, 'C04', SPEC, 2000, 60000, oracles=[kprops.oracle_time_monotone, koracle.oracle_c04, koracle.oracle_c05, koracle.oracle_pending_discarded],
+    res = kprops.run_kernel(ctx, 'C04', SPEC, 2000, 60000, attribute=kprops.stop_is_not_the_cause, oracles=[kprops.oracle_time_monotone, koracle.oracle_c04, koracle.oracle_c05, koracle.oracle_pending_discarded],
                              nontrivial=lambda c, lines: any(' exc Interrupt ' in l for l in lines),
                              rule='seeded random script programs; non-trivial = distinct script in which at least one Interrupt was delivered')
     res['coverage'].update(kbridge.coverage('C04'))
